@@ -566,6 +566,26 @@ func semMain(args []string) {
 				wr.Put(map[string]interface{}{"ev": "q", "file": e.File, "qid": e.QID, "q": e.Q, "r": res, "tag": e.Tag})
 				nq++
 			}
+		case "wire":
+			if world == nil {
+				hx.Die("wire before file")
+			}
+			var d wireDesc
+			if err := json.Unmarshal(e.Q, &d); err != nil {
+				hx.Die("bad descriptor: %v", err)
+			}
+			res := map[string]wireOut{}
+			for _, b := range world.backends {
+				o := wireServe(b, d, false)
+				o.BaseSame = true
+				if d.EDNS >= 0 && d.Opts != 0 {
+					base := wireServe(b, d, true)
+					o.BaseSame = base.digest == o.digest
+				}
+				res[b.name] = o
+			}
+			wr.Put(map[string]interface{}{"ev": "wire", "file": e.File, "qid": e.QID, "d": d, "db": e.Tag, "r": res})
+			nq++
 		case "freq":
 			// the same single-address query asked Reps times: how often each address was the one served
 			if world == nil {
